@@ -110,7 +110,7 @@ pub fn run_c09(p: &mut Prng, t: Tier, i: usize, sink: &mut Sink) {
         // GM/T 0044.5 Annex A signature example
         if setup_keys(p, &mut w, "annex", "sign", b"Alice", Some("000130E78459D78545CB54C587E02CF480CE0B66340F319F348A1D5B1F2DC5F4")) {
             w.exec(set("annex.msg", b"Chinese IBS standard"));
-            sm9_sign_ops(&mut w, "annex", "lib", json!({"c":["00033c8616b06704813203dfd00965022ed15975c662337aed648835dc4b1cbe"],"f":1}));
+            sm9_sign_ops(&mut w, "annex", "lib", json!({"c":vec!["00033c8616b06704813203dfd00965022ed15975c662337aed648835dc4b1cbe"; 4],"f":1}));
             w.exec(json!({"op":"assert.eq","a":"annex.sig","hex":"823c4b21e4bd2dfe1ed92c606653e996668563152fc33f55d7bfbb9bd9705adb0473bf96923ce58b6ad0e13e9643a406d8eb98417c50ef1b29cef9adb48b6d598c856712f1c2e0968ab7769f42a99586aed139d5b8b3e15891827cc2aced9baa05","property":"C09","oracle":"annex-example","entry":"sm9.sign","class":"annex-example","what":"GM/T 0044.5 Annex A signature"}));
             w.exec(sm9_verify_op("annex", true));
         }
@@ -295,7 +295,7 @@ pub fn run_c10(p: &mut Prng, t: Tier, i: usize, sink: &mut Sink) {
     if i == 0 {
         if setup_keys(p, &mut w, "annex", "enc", b"Bob", Some("0001EDEE3778F441F8DEA3D9FA0ACC4E07EE36C93F9A08618AF4AD85CEDE1C22")) {
             w.exec(set("annex.msg", b"Chinese IBE standard"));
-            w.exec(sm9_enc_op("annex", "lib", json!({"c":["0000aac0541779c8fc45e3e2cb25c12b5d2576b2129ae8bb5ee2cbe5ec9e785c"],"f":1})));
+            w.exec(sm9_enc_op("annex", "lib", json!({"c":vec!["0000aac0541779c8fc45e3e2cb25c12b5d2576b2129ae8bb5ee2cbe5ec9e785c"; 4],"f":1})));
             w.exec(json!({"op":"assert.eq","a":"annex.ct","hex":"042445471164490618e1ee20528ff1d545b0f14c8bcaa44544f03dab5dac07d8ff42ffca97d57cddc05ea405f2e586feb3a6930715532b8000759f13059ed59ac0ba672387bcd6de5016a158a52bb2e7fc429197bcab70b25afee37a2b9db9f3671b5f5b0e951489682f3e64e1378cdd5da9513b1c","property":"C10","oracle":"annex-example","entry":"sm9.encrypt","class":"annex-example","what":"GM/T 0044.5 Annex A ciphertext"}));
             w.exec(sm9_dec_op("annex", true));
             // the annex ciphertext itself, as an independent encryptor would send it
@@ -747,7 +747,7 @@ fn kex_session(p: &mut Prng, w: &mut World, plan: &KexPlan, fixed: Option<(&str,
     }
     let script = |p: &mut Prng, h: Option<&str>| -> Value {
         match h {
-            Some(h) => json!({"c":[h.to_lowercase()],"f":3}),
+            Some(h) => json!({"c":[h.to_lowercase(), h.to_lowercase(), h.to_lowercase(), h.to_lowercase()],"f":3}),
             None => rng_json(&uniform_script(p, 1)),
         }
     };
